@@ -5,13 +5,14 @@
 (*                                                                                                      *)
 (* s = [ r    |-> register record (TeakRegs),                                                           *)
 (*       mem  |-> function: physical word address -> value (sparse: only cells known so far),           *)
+(*       io   |-> function: MMIO offset -> value a read returns during this instruction,                 *)
 (*       acc  |-> sequence of <<physical word address, is_write, value>>: every access, in order,        *)
 (*       out  |-> "ok" | "unimpl" | "assert" | "oob"   (first non-ok outcome wins),                      *)
 (*       idle |-> BOOLEAN, lat |-> <<p0,p1,p2,pv>> interrupt latches, vaddr, vctx,                       *)
 (*       miu  |-> [base, z]  MMIO window base and z page (page mode 0) ]                                 *)
 (* Physical word addresses: program word p = p; data word a = 0x20000 + 0x10000*z + a; an access inside  *)
 (* the MMIO window is the pseudo-address 0x100000 + offset (it never touches memory).                      *)
-EXTENDS TeakAddr, TeakAlu, TeakOperand
+EXTENDS TeakAddr, TeakAlu, TeakOperand, TLC
 
 MemWords == 262144                         \* 0x80000 bytes
 DataBase == 131072
@@ -20,13 +21,18 @@ MmioBase == 1048576                        \* pseudo-addresses of MMIO window ac
 Fail(s, o) == IF s.out = "ok" THEN [s EXCEPT !.out = o] ELSE s
 SetR(s, r2) == [s EXCEPT !.r = r2]
 
-MemVal(s, ph) == IF ph \in DOMAIN s.mem THEN s.mem[ph] ELSE 0
-RawRead(s, ph)  == IF ph < MemWords \/ (ph >= MmioBase /\ ph < MmioBase + 2048)
+\* s.mem: program/data cells known so far (physical word address -> value, default 0);
+\* s.io:  what a read of each MMIO register returns during this instruction (offset -> value)
+InIo(ph) == ph >= MmioBase /\ ph < MmioBase + 2048
+MemVal(s, ph) == IF InIo(ph) THEN (IF (ph - MmioBase) \in DOMAIN s.io THEN s.io[ph - MmioBase] ELSE 0)
+                 ELSE IF ph \in DOMAIN s.mem THEN s.mem[ph] ELSE 0
+RawRead(s, ph)  == IF ph < MemWords \/ InIo(ph)
                    THEN [s EXCEPT !.acc = Append(@, <<ph, 0, MemVal(s, ph)>>)]
                    ELSE Fail([s EXCEPT !.acc = Append(@, <<ph, 0, 0>>)], "oob")
-RawWrite(s, ph, v) == IF ph < MemWords \/ (ph >= MmioBase /\ ph < MmioBase + 2048)
-                      THEN [s EXCEPT !.acc = Append(@, <<ph, 1, v>>),
-                                     !.mem = [x \in (DOMAIN s.mem) \cup {ph} |-> IF x = ph THEN v ELSE s.mem[x]]]
+RawWrite(s, ph, v) == IF ph < MemWords
+                      THEN [s EXCEPT !.acc = Append(@, <<ph, 1, v>>), !.mem = (ph :> v) @@ @]
+                      ELSE IF InIo(ph)
+                      THEN [s EXCEPT !.acc = Append(@, <<ph, 1, v>>), !.io = ((ph - MmioBase) :> v) @@ @]
                       ELSE Fail([s EXCEPT !.acc = Append(@, <<ph, 1, v>>)], "oob")
 
 InMMIO(s, a)   == a >= s.miu.base /\ a < s.miu.base + 2048
